@@ -26,7 +26,14 @@ func vtC14ConvGen(r *rand.Rand, i int) (string, []int64) {
 	case 0:
 		m = int64(r.Intn(41)) - 20 // around zero and both minimum clamps (2 shares <-> 1.95 milli, 1000us <-> 10 milli)
 	case 1:
-		m = 256000 + int64(r.Intn(21)) - 10 // around the shares maximum clamp (262144 shares = 256000 milli)
+		// around the shares maximum clamp (262144 shares = 256000 milli) and the whole band up to
+		// 262144 MILLI (a clamp that compares the unconverted amount with the shares maximum)
+		if r.Intn(2) == 0 {
+			m = 256000 + int64(r.Intn(21)) - 10
+		} else {
+			m = 255990 + int64(r.Intn(6200))
+		}
+		label = "sharesmax"
 	case 2:
 		m = int64(1)<<uint(r.Intn(46)) + int64(r.Intn(3)) - 1
 	case 3:
